@@ -414,8 +414,9 @@ def recordNodes (ci : CellInfo) (raw : List Int) : List Int :=
 /-- one cell record → the `size_per` integers stored by `ref_cell_add`, or its error
     (`ref_adj_add` of the vertices in order). -/
 def cellOfRecord (cfg : Cfg) (ci : CellInfo) (nnode : Int) (raw : List Int) : Except Status (List Int) :=
-  -- `nodes[node]--` on `INT_MIN` is a signed overflow
-  if (raw.take ci.nodePer).any (fun x => decide (x = -(2 ^ 31 : Int))) then .error .undefined else
+  -- `nodes[node]--` on `INT_MIN` is a signed overflow (the index check, when present, is made on the
+  -- 1-based value before the decrement, so it never gets there)
+  if ¬ cfg.checkIndex ∧ (raw.take ci.nodePer).any (fun x => decide (x = -(2 ^ 31 : Int))) then .error .undefined else
   if cfg.checkIndex ∧ (recordNodes ci raw).any (fun x => decide (x < 0 ∨ nnode ≤ x)) then .error .invalid
   else
     match adjAddAll cfg (recordNodes ci raw) with
@@ -465,7 +466,7 @@ def rdGeoms (cfg : Cfg) (v : Nat) (t : Nat) (nnode : Int) : Nat → List GeomRec
     match (if 1 < t then rdF64 s else .ok (0, s)) with
     | .error e => .error e
     | .ok (p1, s) =>
-    if node = -(2 ^ 31 : Int) then .error .undefined else   -- `node--` overflows
+    if ¬ cfg.checkIndex ∧ node = -(2 ^ 31 : Int) then .error .undefined else   -- `node--` overflows
     let node := node - 1
     if cfg.checkIndex ∧ (node < 0 ∨ nnode ≤ node) then .error .invalid else
     match geomAdd cfg gs node t id p0 p1 with
@@ -567,7 +568,7 @@ def decodeMeshbFixed (bs : Bytes) : Except Status MeshFile := decodeMeshbWith Cf
 
 /-- **model selection**: the reader the correspondence streams compare the C against.
     Flip to `Cfg.fixed` once /repo has the two checks (see Props/C20.lean). -/
-def Cfg.current : Cfg := Cfg.faithful
+def Cfg.current : Cfg := Cfg.fixed
 
 /-! ## predicates used by C08 / C20 -/
 
